@@ -2,8 +2,8 @@ import PbVerif.Model.JsonLex
 /-
 Helper lemmas for C21/C22: `parseNumber` (decode_number.go) against the RFC 8259 number grammar.
 
-The exact language of the *current* code is the RFC grammar plus "dangling exponents": an exponent
-marker and optional sign with no digit, provided at least one more byte follows (DESIGN.md finding 4).
+`parseNumber` accepts exactly the RFC 8259 numbers that are followed by a delimiter or the end of input
+(since repo commit be83e9c, which repaired DESIGN.md finding 4).
 -/
 namespace JsonLex
 open RFC
@@ -106,20 +106,10 @@ theorem digit_split (s : Bytes) : ∃ ds r, s = ds ++ r ∧ AllDigits ds ∧ NoD
 
 /-! ### the language of the current code -/
 
-/-- an exponent marker and optional sign, with no digit -/
-inductive DanglingExp : Bytes → Prop
-  | mk (e : Byte) (sg : Bytes) : (e = 0x65#8 ∨ e = 0x45#8) → SignOpt sg → DanglingExp (e :: sg)
-
-/-- what the exponent stage of the current `parseNumber` accepts in front of `rest` -/
-def ExpLoose (e rest : Bytes) : Prop := ExpOpt e ∨ (DanglingExp e ∧ rest ≠ [])
-
 /-- `[ minus ] int [ frac ]` followed by an exponent part `e` with `E e rest` (`rest` = what follows) -/
 inductive NumberG (E : Bytes → Bytes → Prop) : Bytes → Bytes → Prop
   | mk (m i f e rest : Bytes) : MinusOpt m → IntPart i → FracOpt f → E e rest →
       NumberG E (m ++ (i ++ (f ++ e))) rest
-
-/-- the language of the current `parseNumber` in front of `rest` -/
-abbrev NumberLoose := NumberG ExpLoose
 
 /-- what the stages before the exponent need to know about an exponent stage `expF` accepting `E` -/
 structure ExpStage (expF : Bytes → Bytes → Nat → Option Nat) (E : Bytes → Bytes → Prop) : Prop where
@@ -157,115 +147,6 @@ theorem numDelim_iff' {input pre e rest : Bytes} (h : input = pre ++ (e ++ rest)
 
 theorem numExp_sound {input pre s : Bytes} (h : input = pre ++ s) {k : Nat}
     (hk : numExp input s pre.length = some k) :
-    ∃ e rest, s = e ++ rest ∧ k = pre.length + e.length ∧ DelimOK rest ∧ ExpLoose e rest := by
-  have noexp : numDelim input pre.length = some k →
-      ∃ e rest, s = e ++ rest ∧ k = pre.length + e.length ∧ DelimOK rest ∧ ExpLoose e rest := by
-    intro hnd
-    obtain ⟨hkk, hdl⟩ := (numDelim_iff h k).1 hnd
-    exact ⟨[], s, rfl, by simpa using hkk, hdl, Or.inl ExpOpt.none⟩
-  rcases s with _ | ⟨c0, _ | ⟨c1, t⟩⟩
-  · exact noexp (by simpa [numExp] using hk)
-  · exact noexp (by simpa [numExp] using hk)
-  · simp only [numExp] at hk
-    split at hk
-    next he =>
-      split at hk
-      next hs =>
-        -- sign present
-        cases t with
-        | nil => simp at hk
-        | cons d t' =>
-          simp only at hk
-          obtain ⟨ds, r, ht, hds, hr, hlen, -, -⟩ := digit_split (d :: t')
-          have hin : input = pre ++ ((c0 :: c1 :: ds) ++ r) := by
-            rw [h]; simp [ht]
-          have hk' : numDelim input (pre.length + (c0 :: c1 :: ds).length) = some k := by
-            rw [← hk, hlen]; simp only [List.length_cons]; congr 1; omega
-          obtain ⟨hkk, hdl⟩ := (numDelim_iff' hin k).1 hk'
-          refine ⟨c0 :: c1 :: ds, r, by simp [ht], hkk, hdl, ?_⟩
-          have hsg : SignOpt [c1] := by
-            rcases hs with rfl | rfl
-            · exact SignOpt.plus
-            · exact SignOpt.minus
-          cases ds with
-          | nil =>
-            refine Or.inr ⟨DanglingExp.mk c0 [c1] he hsg, ?_⟩
-            simp at ht; simp [← ht]
-          | cons d0 ds' =>
-            exact Or.inl (ExpOpt.some c0 [c1] d0 ds' he hsg (AllDigits.cons.1 hds).1 (AllDigits.cons.1 hds).2)
-      next hs =>
-        -- no sign
-        obtain ⟨ds, r, ht, hds, hr, hlen, -, -⟩ := digit_split (c1 :: t)
-        have hin : input = pre ++ ((c0 :: ds) ++ r) := by
-          rw [h]; simp [ht]
-        have hk' : numDelim input (pre.length + (c0 :: ds).length) = some k := by
-          rw [← hk, hlen]; simp only [List.length_cons]; congr 1; omega
-        obtain ⟨hkk, hdl⟩ := (numDelim_iff' hin k).1 hk'
-        refine ⟨c0 :: ds, r, by simp [ht], hkk, hdl, ?_⟩
-        cases ds with
-        | nil =>
-          refine Or.inr ⟨DanglingExp.mk c0 [] he SignOpt.none, ?_⟩
-          simp at ht; simp [← ht]
-        | cons d0 ds' =>
-          exact Or.inl (ExpOpt.some c0 [] d0 ds' he SignOpt.none (AllDigits.cons.1 hds).1 (AllDigits.cons.1 hds).2)
-    next he => exact noexp hk
-
-theorem numExp_complete {input pre e rest : Bytes} (h : input = pre ++ (e ++ rest))
-    (he : ExpLoose e rest) (hd : DelimOK rest) :
-    numExp input (e ++ rest) pre.length = some (pre.length + e.length) := by
-  have key : ∀ a b, a = pre.length + e.length → b = a → numDelim input a = some b := by
-    intro a b ha hb; subst hb; subst ha
-    exact (numDelim_iff' h _).2 ⟨rfl, hd⟩
-  rcases he with he | ⟨he, hne⟩
-  · cases he with
-    | none =>
-      -- no exponent: the rest starts with a delimiter, which is not `e`/`E`
-      rcases rest with _ | ⟨c0, _ | ⟨c1, t⟩⟩
-      · simp only [List.nil_append, numExp]; exact key _ _ (by simp) (by simp)
-      · simp only [List.nil_append, numExp]; exact key _ _ (by simp) (by simp)
-      · have := delim_ne_e c0 (DelimOK.cons.1 hd)
-        simp only [List.nil_append, numExp]
-        rw [if_neg (by simp [this.1, this.2])]
-        exact key _ _ (by simp) (by simp)
-    | some e0 sg d ds he0 hsg hdg hds =>
-      have hdl : digitsLen ((d :: ds) ++ rest) = (d :: ds).length :=
-        digitsLen_append (AllDigits.cons.2 ⟨hdg, hds⟩) hd.noDigitHead
-      have hdl' : digitsLen (d :: (ds ++ rest)) = ds.length + 1 := by simpa using hdl
-      cases hsg with
-      | none =>
-        have h1 := digit_ne_plus d hdg
-        have h2 := digit_ne_minus d hdg
-        simp only [List.nil_append, List.cons_append, numExp, if_pos he0, h1, h2, or_self, if_false, hdl']
-        exact key _ _ (by simp; omega) (by simp; omega)
-      | plus =>
-        simp only [List.cons_append, List.nil_append, numExp, if_pos he0, true_or, if_true, hdl']
-        exact key _ _ (by simp; omega) (by simp; omega)
-      | minus =>
-        simp only [List.cons_append, List.nil_append, numExp, if_pos he0, or_true, if_true, hdl']
-        exact key _ _ (by simp; omega) (by simp; omega)
-  · obtain ⟨c, t, rfl⟩ := List.exists_cons_of_ne_nil hne
-    have hc := DelimOK.cons.1 hd
-    have hdl : digitsLen (c :: t) = 0 := by
-      unfold digitsLen; rw [List.takeWhile_cons_of_neg (by simp [delim_not_digit c hc])]; rfl
-    cases he with
-    | mk e0 sg he0 hsg =>
-      cases hsg with
-      | none =>
-        have h1 := delim_ne_minus c hc
-        have h2 : c ≠ 0x2b#8 := by intro h; subst h; simp [isNotDelim] at hc
-        simp only [List.cons_append, List.nil_append, numExp, if_pos he0, h1, h2, or_self, if_false, hdl]
-        exact key _ _ (by simp) (by simp)
-      | plus =>
-        simp only [List.cons_append, List.nil_append, numExp, if_pos he0, true_or, if_true, hdl]
-        exact key _ _ (by simp) (by simp)
-      | minus =>
-        simp only [List.cons_append, List.nil_append, numExp, if_pos he0, or_true, if_true, hdl]
-        exact key _ _ (by simp) (by simp)
-
-/-! ### the repaired exponent stage -/
-
-theorem numExpFixed_sound {input pre s : Bytes} (h : input = pre ++ s) {k : Nat}
-    (hk : numExpFixed input s pre.length = some k) :
     ∃ e rest, s = e ++ rest ∧ k = pre.length + e.length ∧ DelimOK rest ∧ ExpOpt e := by
   have noexp : numDelim input pre.length = some k →
       ∃ e rest, s = e ++ rest ∧ k = pre.length + e.length ∧ DelimOK rest ∧ ExpOpt e := by
@@ -273,9 +154,9 @@ theorem numExpFixed_sound {input pre s : Bytes} (h : input = pre ++ s) {k : Nat}
     obtain ⟨hkk, hdl⟩ := (numDelim_iff h k).1 hnd
     exact ⟨[], s, rfl, by simpa using hkk, hdl, ExpOpt.none⟩
   rcases s with _ | ⟨c0, _ | ⟨c1, t⟩⟩
-  · exact noexp (by simpa [numExpFixed] using hk)
-  · exact noexp (by simpa [numExpFixed] using hk)
-  · simp only [numExpFixed] at hk
+  · exact noexp (by simpa [numExp] using hk)
+  · exact noexp (by simpa [numExp] using hk)
+  · simp only [numExp] at hk
     split at hk
     next he =>
       split at hk
@@ -315,19 +196,19 @@ theorem numExpFixed_sound {input pre s : Bytes} (h : input = pre ++ s) {k : Nat}
         next => simp at hk
     next he => exact noexp hk
 
-theorem numExpFixed_complete {input pre e rest : Bytes} (h : input = pre ++ (e ++ rest))
+theorem numExp_complete {input pre e rest : Bytes} (h : input = pre ++ (e ++ rest))
     (he : ExpOpt e) (hd : DelimOK rest) :
-    numExpFixed input (e ++ rest) pre.length = some (pre.length + e.length) := by
+    numExp input (e ++ rest) pre.length = some (pre.length + e.length) := by
   have key : ∀ a b, a = pre.length + e.length → b = a → numDelim input a = some b := by
     intro a b ha hb; subst hb; subst ha
     exact (numDelim_iff' h _).2 ⟨rfl, hd⟩
   cases he with
   | none =>
     rcases rest with _ | ⟨c0, _ | ⟨c1, t⟩⟩
-    · simp only [List.nil_append, numExpFixed]; exact key _ _ (by simp) (by simp)
-    · simp only [List.nil_append, numExpFixed]; exact key _ _ (by simp) (by simp)
+    · simp only [List.nil_append, numExp]; exact key _ _ (by simp) (by simp)
+    · simp only [List.nil_append, numExp]; exact key _ _ (by simp) (by simp)
     · have := delim_ne_e c0 (DelimOK.cons.1 hd)
-      simp only [List.nil_append, numExpFixed]
+      simp only [List.nil_append, numExp]
       rw [if_neg (by simp [this.1, this.2])]
       exact key _ _ (by simp) (by simp)
   | some e0 sg d ds he0 hsg hdg hds =>
@@ -338,43 +219,35 @@ theorem numExpFixed_complete {input pre e rest : Bytes} (h : input = pre ++ (e +
     | none =>
       have h1 := digit_ne_plus d hdg
       have h2 := digit_ne_minus d hdg
-      simp only [List.nil_append, List.cons_append, numExpFixed, if_pos he0, h1, h2, or_self, if_false, hdl',
+      simp only [List.nil_append, List.cons_append, numExp, if_pos he0, h1, h2, or_self, if_false, hdl',
         hdg, if_true]
       exact key _ _ (by simp <;> omega) (by simp <;> omega)
     | plus =>
-      simp only [List.cons_append, List.nil_append, numExpFixed, if_pos he0, true_or, if_true, hdl', hdg]
+      simp only [List.cons_append, List.nil_append, numExp, if_pos he0, true_or, if_true, hdl', hdg]
       exact key _ _ (by simp <;> omega) (by simp <;> omega)
     | minus =>
-      simp only [List.cons_append, List.nil_append, numExpFixed, if_pos he0, or_true, if_true, hdl', hdg]
+      simp only [List.cons_append, List.nil_append, numExp, if_pos he0, or_true, if_true, hdl', hdg]
       exact key _ _ (by simp <;> omega) (by simp <;> omega)
 
 /-! ### what follows the fraction -/
 
 /-- what follows the fraction does not start with a digit or a decimal point -/
-theorem expLoose_head {e rest : Bytes} (he : ExpLoose e rest) (hd : DelimOK rest) :
+theorem exp_head {e rest : Bytes} (he : ExpOpt e) (hd : DelimOK rest) :
     ∀ c ∈ (e ++ rest).head?, isDigit c = false ∧ c ≠ 0x2e#8 := by
   intro c hc
   have hE : ∀ x : Byte, (x = 0x65#8 ∨ x = 0x45#8) → isDigit x = false ∧ x ≠ 0x2e#8 := by decide
-  rcases he with he | ⟨he, _⟩
-  · cases he with
-    | none =>
-      cases rest with
-      | nil => simp at hc
-      | cons r t =>
-        simp at hc; subst hc
-        exact ⟨delim_not_digit _ (DelimOK.cons.1 hd), delim_ne_dot _ (DelimOK.cons.1 hd)⟩
-    | some e0 sg d ds he0 _ _ _ => simp at hc; subst hc; exact hE _ he0
-  · cases he with
-    | mk e0 sg he0 _ => simp at hc; subst hc; exact hE _ he0
+  cases he with
+  | none =>
+    cases rest with
+    | nil => simp at hc
+    | cons r t =>
+      simp at hc; subst hc
+      exact ⟨delim_not_digit _ (DelimOK.cons.1 hd), delim_ne_dot _ (DelimOK.cons.1 hd)⟩
+  | some e0 sg d ds he0 _ _ _ => simp at hc; subst hc; exact hE _ he0
 
-/-- the exponent stage of the current code accepts exactly `ExpLoose` -/
-theorem expStage_current : ExpStage numExp ExpLoose :=
-  ⟨fun h hk => numExp_sound h hk, fun h he hd => numExp_complete h he hd, fun he hd => expLoose_head he hd⟩
-
-/-- the repaired exponent stage accepts exactly the RFC `[ exp ]` -/
-theorem expStage_fixed : ExpStage numExpFixed (fun e _ => ExpOpt e) :=
-  ⟨fun h hk => numExpFixed_sound h hk, fun h he hd => numExpFixed_complete h he hd,
-   fun he hd => expLoose_head (Or.inl he) hd⟩
+/-- the exponent stage accepts exactly the RFC `[ exp ]` -/
+theorem expStage_numExp : ExpStage numExp (fun e _ => ExpOpt e) :=
+  ⟨fun h hk => numExp_sound h hk, fun h he hd => numExp_complete h he hd, fun he hd => exp_head he hd⟩
 
 /-! ### fraction stage -/
 
@@ -547,22 +420,16 @@ theorem parseNumberG_exact (s : Bytes) (n : Nat) :
 
 end Generic
 
-/-- **The exact language of the current `parseNumber`.** -/
-theorem parseNumber_exact (s : Bytes) (n : Nat) :
-    parseNumber s = some n ↔
-      ∃ p rest, s = p ++ rest ∧ p.length = n ∧ DelimOK rest ∧ NumberLoose p rest :=
-  parseNumberG_exact expStage_current s n
-
-theorem numberG_fixed_iff {p rest : Bytes} : NumberG (fun e _ => ExpOpt e) p rest ↔ Number p := by
+theorem numberG_iff {p rest : Bytes} : NumberG (fun e _ => ExpOpt e) p rest ↔ Number p := by
   constructor
   · rintro ⟨m, i, f, e, rest, hm, hi, hf, he⟩; exact Number.mk m i f e hm hi hf he
   · rintro ⟨m, i, f, e, hm, hi, hf, he⟩; exact NumberG.mk m i f e rest hm hi hf he
 
-/-- **The exact language of `parseNumber` once the repair is applied: the RFC 8259 numbers.** -/
-theorem parseNumberFixed_exact (s : Bytes) (n : Nat) :
-    parseNumberFixed s = some n ↔ ∃ p rest, s = p ++ rest ∧ p.length = n ∧ DelimOK rest ∧ Number p := by
-  unfold parseNumberFixed
-  rw [parseNumberG_exact expStage_fixed s n]
-  simp only [numberG_fixed_iff]
+/-- **The exact language of `parseNumber`: the RFC 8259 numbers** (followed by a delimiter or nothing). -/
+theorem parseNumber_exact (s : Bytes) (n : Nat) :
+    parseNumber s = some n ↔ ∃ p rest, s = p ++ rest ∧ p.length = n ∧ DelimOK rest ∧ Number p := by
+  unfold parseNumber
+  rw [parseNumberG_exact expStage_numExp s n]
+  simp only [numberG_iff]
 
 end JsonLex
